@@ -231,9 +231,12 @@ int asm_create_bin_file(assemblyline_t al, const char *file_name) {
 
   FAIL_IF_MSG(write_ptr == NULL, "failed to create binary file")
 
-  fwrite(buffer, sizeof(uint8_t), len, write_ptr);
+  size_t written = fwrite(buffer, sizeof(uint8_t), len, write_ptr);
+  // buffered data may only hit the disk (and fail) when the file is closed
+  int close_error = fclose(write_ptr);
 
-  fclose(write_ptr);
+  FAIL_IF_MSG(written != (size_t)len || close_error,
+              "failed to write binary file")
 
   return EXIT_SUCCESS;
 }
